@@ -317,7 +317,7 @@ SPEC = Property(
           "items), subscribe cut by a FIN/reset (polling fallback), subscribe while the accessory is unreachable followed by its return, add normal/raising listener, remove listener, peer FIN/reset (also in the middle of an encrypted block) followed by "
           "reconnection, event burst of 1..4 EVENT messages in one read or split across reads (valid with 1..3 characteristics, empty, "
           "non-JSON text, non-UTF-8 bytes) under generated frame sizes, zeroconf update, advance time}; model = wanted set, listener set, "
-          "polling-fallback flag. CoAP: 1..4 event notifications of 1..4 records each (instance ids may repeat inside one notification) to 1..3 listeners. Non-trivial: a reconnect while something is subscribed, a burst of >=2 messages, or a raising listener."),
+          "polling-fallback flag. BLE: 1..6 subscriptions with start_notify refused once / always per characteristic, link loss, one notification read back. CoAP: 1..4 event notifications of 1..4 records each (instance ids may repeat inside one notification) to 1..3 listeners. Non-trivial: a reconnect while something is subscribed, a burst of >=2 messages, or a raising listener."),
     layers=[
         Layer("fixed-shapes", run_case, enumerate=enum_fixed, exhaustive=True, space="5 unparsable body kinds x 2 frames; FIN/reset x 4 frames", min_nontrivial=10),
         Layer("generated", run_case, strategy=histories, n={"quick": 12000, "thorough": 150000}, min_nontrivial=500),
